@@ -4,6 +4,9 @@ import Mimic.Cursor
 import Mimic.ResultsTables
 import Mimic.Params
 import Mimic.Extracted.Params
+import Mimic.Auth
+import Mimic.Sha1
+import Mimic.Extracted.Auth
 /-! Line-protocol driver pieces: one `handle` per domain. Unknown input is answered `bad-op`, never defaulted. -/
 namespace Mimic.Drv
 
@@ -36,6 +39,8 @@ structure St where
   wr : Mimic.Framing.WSt := { pending := [], seq := 0, sent := [] }
   wrB : Nat := 32768
   cur : Mimic.Cursor.Reg := Mimic.Cursor.Reg.empty
+  authPlugins : List Mimic.Auth.Plugin := []
+  authUsers : List (String × Mimic.Auth.User) := []
 
 def ctl (st : St) : List String → St × String
   | ["new", sid] => match sid.toNat? with
@@ -267,6 +272,77 @@ def par (_st : St) : List String → String
       | none => "bad-op"
   | _ => "bad-op"
 
+/-! auth -/
+
+def unhexStr (s : String) : Option String := (unhex s).bind utf8Dec |>.map String.ofList
+def optStr (s : String) : Option (Option String) := if s = "-" then some none else (unhexStr s).map some
+def optChars (s : String) : Option (Option (List Char)) := if s = "-" then some none else (unhexStr s).map (fun x => some x.toList)
+
+def parseKind (s : String) : Option Mimic.Auth.Kind :=
+  if s = "native" then some .native
+  else if s = "nologin" then some .nologin
+  else if s = "custom2" then some .custom2
+  else if s.startsWith "clear:" then
+    let body := (s.drop 6).toString
+    if body = "" then some (.clear []) else
+    let pairs := (body.splitOn ";").map (fun p => match p.splitOn "=" with
+      | [u, pw] => match unhexStr u, unhex pw with
+        | some u, some pw => some (u, pw)
+        | _, _ => none
+      | _ => none)
+    (optAllL pairs).map .clear
+  else none
+
+def showAOut : Mimic.Auth.AOut → String
+  | .switchReq p d => s!"switch:{p}:{hex d}"
+  | .more d => s!"more:{hex d}"
+  | .ok => "ok"
+  | .errUnknownUser => "errU"
+  | .errDenied => "errD"
+
+def showARes : Mimic.Auth.ARes → String
+  | .authenticated n => "auth:" ++ utf8Hex n.toList
+  | .failed => "failed"
+  | .raisedExc => "raised"
+  | .waiting => "waiting"
+
+def auth (st : St) : List String → St × String
+  | ["reset"] => ({ st with authPlugins := [], authUsers := [] }, "ok")
+  | ["plugin", name, cn, kind] => match optStr cn, parseKind kind with
+      | some cn, some k => ({ st with authPlugins := st.authPlugins ++ [{ name := name, clientName := cn, kind := k }] }, "ok")
+      | _, _ => (st, "bad-op")
+  | ["user", key, name, a, o, pl] => match unhexStr key, unhexStr name, optChars a, optChars o with
+      | some k, some n, some a, some o =>
+          ({ st with authUsers := st.authUsers ++ [(k, { name := n, auth := a, old := o, plugin := if pl = "-" then none else some pl })] }, "ok")
+      | _, _, _, _ => (st, "bad-op")
+  | ["sha1", h] => match unhex h with
+      | some b => (st, hex (Mimic.Sha1.sha1 b))
+      | none => (st, "bad-op")
+  | ["go", server, user, resp, cp, hsd, hsp, draws, replies] =>
+      match unhexStr user, unhex resp, optStr cp, (if hsd = "none" then some none else (unhex hsd).map some),
+            optAllL ((draws.splitOn ",").map String.toNat?),
+            (if replies = "none" then some [] else optAllL ((replies.splitOn ";").map unhex)) with
+      | some user, some resp, some cp, some hsd, some draws, some replies =>
+        let env : Mimic.Auth.Env := { plugins := st.authPlugins, users := fun n => (st.authUsers.find? (fun kv => kv.1 == n)).map Prod.snd }
+        let H := Mimic.Sha1.sha1
+        let α := Mimic.Extracted.Auth.safeNonceChars
+        if server = "1" then
+          match st.authPlugins.head? with
+          | none => (st, "bad-op")
+          | some dp =>
+            let s0 := Mimic.Auth.start H α dp none (draws.take 20)
+            let rest := if s0.2.2 then draws.drop 20 else draws
+            match s0.1 with
+            | .more data =>
+              let r := Mimic.Auth.authenticate H α env (some (dp, s0.2.1)) user resp cp (some data) dp.name (rest.take 20) replies
+              (st, s!"greet:{hex data} " ++ ",".intercalate (r.1.map showAOut) ++ " " ++ showARes r.2)
+            | _ => (st, "greet-failed")
+        else
+          let r := Mimic.Auth.authenticate H α env none user resp cp hsd hsp (draws.take 20) replies
+          (st, ",".intercalate (r.1.map showAOut) ++ " " ++ showARes r.2)
+      | _, _, _, _, _, _ => (st, "bad-op")
+  | _ => (st, "bad-op")
+
 def handle (st : St) (line : String) : St × String :=
   match words line with
   | "ctl" :: rest => ctl st rest
@@ -275,6 +351,7 @@ def handle (st : St) (line : String) : St × String :=
   | "cur" :: rest => cur st rest
   | "res" :: rest => (st, res st rest)
   | "par" :: rest => (st, par st rest)
+  | "auth" :: rest => auth st rest
   | _ => (st, "bad-op")
 
 end Mimic.Drv
